@@ -100,5 +100,5 @@ def main(tier):
     import lanemacro
     rep.attempt(lanemacro.check, rep, 'EC', {'ec_dot_prod'}, 290)
     import c16
-    rep.attempt(c16.check_tablefmt, rep)
+    rep.attempt(c16.check_tablefmt, rep, ('ec_encode_data', 'gf_vect_dot_prod'))
     return rep.finish()
